@@ -1332,6 +1332,13 @@ class Engine(object):
       # consistent internally as well as with the clients and database outside of the sandbox
       # (which won't see any changes in case of an error).
       log.info("Failed to apply useractions; reverting: %r", e)
+      # Formula cells recomputed in the middle of the bundle (e.g. by CopyFromColumn or ModifyColumn)
+      # and the values of removed formula columns are only recorded in the calc summary. Turn them
+      # into undo actions first, or they would survive the revert.
+      try:
+        self.out_actions.flush_calc_changes()
+      except Exception:
+        log.error("Error flushing calc changes before revert: %s", traceback.format_exc())
       self._undo_to_checkpoint(checkpoint)
 
       # Check schema consistency again. If this fails, something is really wrong (we tried to go
